@@ -10,14 +10,22 @@ CFG = {'lean_modules': ['ObiVerif.Props.C08'],
          'two-letter / homopolymer / tandem-repeat fragments, fast and exact x relative and absolute 4-mer score x delta 0,1,5 x 5 gap x 3 scale settings x '
          'min-overlap / min-identity thresholds, one alignment arena and one shift map shared by all cases of a run (small and large pairs interleaved: the '
          'arena shrinks and grows); op fm = one fill (left or right) + backtracking on the shared arena, score, path and BOTH complete flat matrices compared '
-         'with the verbatim model and with the same fill on a fresh arena; op cons = BuildQualityConsensus on random consuming paths (either sign at both '
-         'ends, adjacent opposite runs, (0,0) pairs); hand-picked corpus with the witnesses of every repaired defect, every pair of extreme qualities on '
-         'overlaps of 18 / 1 / 0 / full and very unequal lengths, all-N and all-IUPAC reads, every min-overlap value around the real overlap x every '
-         'min-identity value around 1; non-trivial = distinct well-formed case (not bad-op)',
+         'with the verbatim model and with the same fill on a fresh arena; op bt = _Backtracking alone on arbitrary valid path matrices (single and multi-base '
+         'steps, the alternating matrices that fill the 2*(la+lb) cells of the path buffer completely) with path buffers of capacity 0, 1, la+lb, 2(la+lb)-1, '
+         '2(la+lb), larger, all holding stale values; op cons = BuildQualityConsensus on random consuming paths (either sign at both ends, adjacent opposite '
+         'runs, (0,0) pairs); hand-picked corpus with the witnesses of every repaired defect, the boundary cases of the column rule (each of the 15 symbols '
+         'with quality 0, 1, 2, 90, 91, 93 opposite a leading / internal / trailing gap on either side; every ordered pair of symbols at equal qualities 0, 1, '
+         '40, 93 with the stale qM/qm coming from nothing, from an unequal column, from a gap column; n opposite a base for every order of the qualities; '
+         'mismatch qualities at the ends of the table), pairs whose quality-0 / quality-1 bases sit in the unpaired ends and opposite an internal indel, every '
+         'pair of extreme qualities on overlaps of 18 / 1 / 0 / full and very unequal lengths, all-N and all-IUPAC reads, every min-overlap value around the '
+         'real overlap x every min-identity value around 1; every annotation of the returned record (all keys, sorted; pairing_mismatches map; score_norm / '
+         'paring_fast_score as exact thousandths) is part of the compared result of every pe / pl case; non-trivial = distinct well-formed case (not bad-op)',
  'technique': 'Lean 4 theorems on a model parametric in the score function and the gap penalty (floats never modelled), with a verbatim layer (flat '
               'column-major matrices, _SetMatrices/_GetMatrix/_GetMatrixFrom index arithmetic, the two loop nests) proved equal to the recurrence layer for '
-              'every arena content + differential correspondence of the model with the real PEAlign / fills (complete matrices) / BuildQualityConsensus / '
-              'AssemblePESequences / FastShiftFourMer + independent O(n^2) dynamic program, naive 4-mer vote, column-wise consensus oracle and metamorphic '
+              'every arena content + a third layer holding the path buffer of the arena written from its end (proved equal for every path matrix and every '
+              'buffer content / capacity) + differential correspondence of the model (executed at the arena level in BOTH modes: flat matrices + path buffer '
+              'with stale content) with the real PEAlign / fills (complete matrices) / BuildQualityConsensus / AssemblePESequences (record + all annotations) '
+              '/ _Backtracking alone / FastShiftFourMer + independent O(n^2) dynamic program, naive 4-mer vote, column-wise consensus oracle and metamorphic '
               'option oracle (min-overlap, min-identity, withStats, fast annotations) run on the real code',
  'level_text': 'For every score function s(i,j), every gap penalty and all non-empty reads, on the Lean model: the fill matrices satisfy the three-way '
                'recurrence with the free end gaps of the scheme; _Backtracking on them terminates inside the matrix and its run-length path consumes both '
@@ -39,33 +47,68 @@ CFG = {'lean_modules': ['ObiVerif.Props.C08'],
                '(consensus_higher_quality_wins, consensus_gap_column decided over the regenerated tables); ali_length + seq_a_single + seq_b_single = length '
                'and mode <-> thresholds (stats_consistent); error-free reassembly: if the true path is the unique optimum up to alignment columns of the '
                'scheme kept, the returned path has its columns and the consensus is the consensus along the true path (errorfree_reassembly_columns; the '
-               'former uniqueness on run-length lists could never hold), and the claim is refuted for repeats (errorfree_reassembly_repeat_false). The model '
-               'is tied to /repo by running both on the same lines every run (exported integer scores as data).',
- 'level_note': "Still partial: (1) error-free reassembly — proved only under the hypothesis 'the true path is the unique optimum up to columns of the scheme "
-               "that is kept'; no closed condition in terms of the signs of the score table and the overlap length exists (errorfree_reassembly_repeat_false: "
-               'a positive-on-matches table and an overlap of 2 of 4 bases of a homopolymer is beaten by the full diagonal); that the consensus along the true '
-               'path spells the fragment is reduced to consensus_columns_real + consensus_gap_column but the final equality with the fragment is checked by '
-               'the oracle (reassembly.exact / reassembly.fast whenever the true path is the unique optimum / the true offset is the strict maximiser of the '
-               'vote); (2) fast mode: the local fills run by peAlignFastFrom are the recurrence-level fillLeft/fillRight (equal to the verbatim loop nests by '
-               'fills_verbatim_refine, but the fast driver path does not execute the verbatim layer; op fm does on arbitrary sub-reads); (3) _Backtracking '
-               "writes the path from the end of the arena buffer: modelled by prepending to a list; Index4mer's 256 position lists are modelled by the double "
-               'loop over both 4-mer lists (same multiset of (refpos, pos) pairs; only the per-shift counts matter, proved order-independent). Go int is '
-               'modelled by Int: valid while |scores| stay far from 2^63 (true once C08-logaddexp-nan is applied; the oracle checks the table entries used). '
-               'The quality written on a quality tie between different bases uses the stale qM/qm of an earlier column (transcribed as is; the property does '
-               'not constrain that value). Float equality of the relative 4-mer scores is modelled by exact cross-multiplication (ratios of integers < 2^20: '
-               'exact in float64). Observation, not a property violation: in join mode AssemblePESequences drops the paring_fast_* annotations (they are '
-               'written on the consensus record that join mode discards).',
- 'trusted_base': LEAN_TB + [
-                  'extract/ (go/ast literal extraction of _FourBitsBaseCode, _FourBitsBaseDecode, __single_base_code__)',
+               'former uniqueness on run-length lists could never hold), and the claim is refuted for repeats (errorfree_reassembly_repeat_false). Second '
+               'round: (a) fast mode executes the verbatim fills: peAlignFastFromA (local loop nests over the flat arena) = peAlignFastFrom for every vote in '
+               'range, delta and arena content (fast_verbatim_refines); (b) _Backtracking with its real path buffer — slice regrown to 2(la+lb) cells, written '
+               "from its END with a decreasing index, result path[p:cap] — returns the list model's path for EVERY path matrix (also failing ones) and EVERY "
+               'previous content / capacity of the buffer; no write is ever out of range, the path has at most 2(la+lb) entries (backtracking_buffer_refines); '
+               'one fill, exact mode and fast mode on the whole arena (matrices + path buffer, all stale) equal the recurrence level (arena_refines) — this is '
+               'what the driver executes; (c) error-free reassembly end to end: the consensus along the true path of reads cut from one fragment X++O++Y over '
+               'the 15 IUPAC symbols, any qualities, IS the fragment, A first and B first (consensus_true_path_is_fragment); the decidable uniqueness '
+               'hypothesis strictAlong (in every cell the true path enters, the candidate coming from the true path strictly beats the other candidates of the '
+               'recurrence = the independent DP counts one optimal path) implies score(tp) = optimum and every consuming path scoring as much has the columns '
+               'of tp (errorfree_unique_optimum); together: exact mode returns an alignment with the columns of the true path and BuildQualityConsensus along '
+               'the RETURNED path spells the fragment (errorfree_reassembly_left, errorfree_reassembly_right; hypotheses: which scheme wins = comparison of '
+               'two integers, strictAlong); closed condition: a table positive on the true diagonal and negative on every other pair of positions, gap penalty '
+               "<= 0, makes the true path strict in the left matrix (errorfree_single_diagonal_strict, errorfree_reassembly_single_diagonal); the weaker 'the "
+               "overlap occurs once' is refuted for positive-match / negative-mismatch tables (errorfree_overlap_once_insufficient); (d) the quality row: "
+               'column k holds colQual of the (base, quality) of A and B the path shows there in the (qM, qm) state left by the first k columns, seq_ab_match '
+               'counts the columns with equal symbols and two positive qualities (consensus_quality_columns); gap or quality-0 base on one side -> the other '
+               'quality capped at 90; match -> sum capped at 90; mismatch at different qualities -> max - adj(min) in byte arithmetic capped at 90; mismatch '
+               "at EQUAL qualities -> qM - adj(qm) of the state, independent of the column's own qualities (quality_rules); with the real table (adjAmd64, a "
+               'literal the driver requires the harness data to equal, decided entry by entry): match = min 90 (qA+qB), mismatch = min 90 (qM + mmBonus qm), '
+               'mmBonus = 0,10,7,6,5,4,3,3,2,2,2,1,1,1,1,1,1,0,... (quality_values); (e) obipairing: join mode = A, ten dots, B with qualities A, ten zeros, '
+               'B, one quality per base, annotations exactly ali_length, mode=join, score, score_norm, seq_ab_match (join_record); alignment mode: ali_dir, '
+               'ali_length, mode, pairing_mismatches iff a column holds two different symbols, paring_fast_* iff fast, score, score_norm, seq_a_single, '
+               'seq_ab_match, seq_b_single (alignment_annotations); the two rounded ratios are printed as exact thousandths, never on a rounding boundary '
+               '(ratio_rounding_exact). The model is tied to /repo by running both on the same lines every run (exported integer scores as data).',
+ 'level_note': "Still partial: (1) error-free reassembly: the property's claim is false as stated (repeats, strict containment: "
+               "errorfree_reassembly_repeat_false, finding D16) and is proved under the decidable hypothesis strictAlong + 'which scheme wins'; the closed "
+               'condition (only the true diagonal scores positively) is proved for the A-first geometry / left scheme only (B first: take strictAlong as '
+               "hypothesis) and still needs 'the left scheme wins' as a hypothesis; it is far from necessary (real DNA always has single-base matches off the "
+               "diagonal) — no closed necessary-and-sufficient condition exists (errorfree_overlap_once_insufficient); that strictAlong coincides with 'the "
+               "independent DP counts one optimal path' is stated, not tied: the oracle (reassembly.exact whenever the count is 1) and the theorem use the two "
+               "formulations side by side; fast mode reassembly ('true offset strict maximiser of the vote') stays oracle only; (2) the path buffer: modelled "
+               'inside _Backtracking only; in the identical-overlap branch of fast mode the Go code builds the two-entry path with append(arena.path[:0], 0, '
+               'partLen) and then extends it in place: the buffer is not modelled there, only the returned path; the aliasing of the returned path with the '
+               "arena is not observable (the harness copies it); (3) Index4mer's 256 position lists are modelled by the double loop over both 4-mer lists "
+               '(same multiset of (refpos, pos) pairs; only the per-shift counts matter, proved order-independent). Go int is modelled by Int: valid while '
+               '|scores| stay far from 2^63 (the oracle checks the table entries used). (4) qualities: the adjustment table byte(log10(1-10^(-qm/30))*10+0.5) '
+               'is data (the amd64 conversion of a negative float to byte: implementation-defined in Go); the driver refuses a table that differs from the '
+               "literal adjAmd64. Observation, not a property violation: the correction is negative, so 'qM - correction' ADDS up to 10 to the higher quality "
+               'on a mismatch (a mismatch column never gets less than the higher quality), and a mismatch at equal qualities gets the value computed from an '
+               'earlier column (stale qM/qm; 0 when no earlier column had two different qualities) — the property only asks for one quality per column. (5) '
+               "annotations: floats are compared as exact thousandths; on an exact rounding boundary of 1000*num/den both sides print '~' (6 of ~3700 quick "
+               'cases); bases are assumed ASCII for the %c / ToUpper of the pairing_mismatches keys. Float equality of the relative 4-mer scores is modelled '
+               'by exact cross-multiplication (ratios of integers < 2^20: exact in float64). Observation: in join mode AssemblePESequences drops the '
+               'paring_fast_* and pairing_mismatches annotations (written on the consensus record that join mode discards).',
+ 'trusted_base': LEAN_TB + ['extract/ (go/ast literal extraction of _FourBitsBaseCode, _FourBitsBaseDecode, __single_base_code__)',
                   'pkg/obialign/verif_hooks_c08.go (exports _PairingScorePeAlign, the two tables, the observed gap penalty), pkg/obialign/verif_hooks_c08b.go '
-                  '(one fill + backtracking, copies of the two flat arena matrices)',
+                  '(one fill + backtracking, copies of the two flat arena matrices), pkg/obialign/verif_hooks_c08c.go (_Backtracking on a caller-supplied path '
+                  'matrix and path buffer)',
                   'independent DP / naive vote / column oracle / option oracle in harness/c08.go',
-                  'float comparisons of ratios of integers < 2^20 are exact (4-mer relative score, min identity)'],
+                  'float comparisons of ratios of integers < 2^20 are exact (4-mer relative score, min identity)',
+                  'the literal quality-adjustment table adjAmd64 in Model/PEAnnot.lean is compared with the table computed by the harness with the formula of '
+                  'alignment.go on every case (mismatch = the case is refused)'],
  'modelled': 'pkg/obialign pairedendalign.go (_SetMatrices, _GetMatrix, _GetMatrixFrom, _FillMatrixPeLeftAlign, _FillMatrixPeRightAlign verbatim over the flat '
-             'arena matrices in Model/PEFillV.lean and as one recurrence in Model/PEAlign.lean, PEAlign exact and fast), backtracking.go (_Backtracking), '
-             'alignment.go (_BuildAlignment, BuildQualityConsensus without the mismatch statistics map), pkg/obikmer encodefourmer.go (Encode4mer, Index4mer, '
-             'FastShiftFourMer), pkg/obitools/obipairing pairing.go (AssemblePESequences, JoinPairedSequence; score_norm and paring_fast_score, rounded '
-             'floats, are not printed by the model; the paring_fast_* annotations are checked by the oracle)',
+             'arena matrices in Model/PEFillV.lean and as one recurrence in Model/PEAlign.lean, PEAlign exact and fast at the three levels: recurrence, flat '
+             'matrices (…A), whole arena with the path buffer (…B, Model/PEArena.lean)), backtracking.go (_Backtracking as a list in Model/PEAlign.lean and '
+             'with its buffer written from the end in Model/PEBackV.lean), alignment.go (_BuildAlignment, BuildQualityConsensus with the mismatch statistics '
+             'map in Model/PEAnnot.lean), pkg/obikmer encodefourmer.go (Encode4mer, Index4mer, FastShiftFourMer), pkg/obitools/obipairing pairing.go '
+             '(AssemblePESequences with withStats: record and ALL annotations — mode, ali_dir, ali_length, score, score_norm and paring_fast_score as exact '
+             'thousandths, seq_a_single, seq_b_single, seq_ab_match, pairing_mismatches, paring_fast_count/overlap; JoinPairedSequence)',
  'assumptions': ['reads are non-empty and lower-case (obiseq.SetSequence lower-cases), qualities 0..93 with len(qual) = len(seq)',
                  'the score tables are finite (|entry| < 2^40): int sums do not wrap',
-                 'cap() of an arena slice is modelled by the size of the array handed to the fill (prepare)']}
+                 'cap() of an arena slice is modelled by the size of the array handed to the fill (prepare)',
+                 'bases are ASCII (the keys of pairing_mismatches are printed with %c and upper-cased)',
+                 'float -> byte conversion of the negative quality correction as on amd64 (table compared on every case)']}
